@@ -140,4 +140,8 @@ def jobs(tier):
 
 
 def main(tier):
-    return common.run_space_check("C04", tier, jobs(tier), RULE, ASSUME, budget_s=110 if tier == "quick" else 1500)
+    js = jobs(tier)
+    for (lab, kind, p_) in alpha.interaction_programs(tier):
+        if kind == "resource":
+            js.append({"program": p_, "families": ["task", "resource", "constraint"], "family": "interaction:" + lab.split("/")[2]})
+    return common.run_space_check("C04", tier, js, RULE, ASSUME, budget_s=110 if tier == "quick" else 1500)
